@@ -1,0 +1,32 @@
+//! Verification only (cargo feature `verif-hooks`): compile-time obligations, no behaviour.
+//!
+//! `EmmyLuaAnalysis` is shared between threads on the strength of an `unsafe impl Send/Sync`.
+//! These obligations make the compiler check what that assertion promises: every field of the
+//! analysis is thread-safe *on its own*. The exhaustive destructuring pattern (no `..`) stops
+//! compiling when a field is added, so a new field cannot escape the check.
+use std::sync::Arc;
+
+use crate::{DbIndex, Emmyrc, EmmyLuaAnalysis, LuaCompilation, LuaDiagnostic, Vfs};
+
+fn assert_send_sync<T: Send + Sync>() {}
+fn assert_send_sync_val<T: Send + Sync>(_: &T) {}
+
+#[allow(dead_code)]
+fn obligations(analysis: EmmyLuaAnalysis) {
+    assert_send_sync::<DbIndex>();
+    assert_send_sync::<Vfs>();
+    assert_send_sync::<LuaCompilation>();
+    assert_send_sync::<LuaDiagnostic>();
+    assert_send_sync::<Arc<Emmyrc>>();
+    let EmmyLuaAnalysis {
+        compilation,
+        diagnostic,
+        emmyrc,
+    } = analysis;
+    assert_send_sync_val(&compilation);
+    assert_send_sync_val(&diagnostic);
+    assert_send_sync_val(&emmyrc);
+}
+
+/// Number of obligations above (reported in the verification evidence).
+pub const OBLIGATIONS: usize = 8;
